@@ -651,6 +651,12 @@ func loadBasicSegment(sloc *SegmentLoc) (Segment, error) {
 		}
 
 		buf = sloc.mref.buf[bufStart : bufStart+sloc.BufBytes]
+	} else {
+		// A segment whose keys and vals are all zero-length (an entry for
+		// the empty key with an empty or no value) has no buf bytes, but
+		// its entries must still be found: keep buf non-nil so that the
+		// zero-length key/val slices taken from it are non-nil too.
+		buf = []byte{}
 	}
 
 	return &segment{
